@@ -1,7 +1,361 @@
 package c06
 
+import (
+	"polycheck/ob"
+)
+
+const controlFile = "formats/gltf/zz_verif_control_c06.go"
+
+// controls: positive (…Bad) and negative (…Good) self-test functions, type-checked inside
+// package gltf. Every rule must report its Bad control and stay silent on its Good control.
 func controls() map[string]string {
-	return map[string]string{}
+	return map[string]string{controlFile: `package gltf
+
+import (
+	"bytes"
+	"encoding/base64"
+	"encoding/binary"
+	"encoding/json"
+	"io"
+	"math"
+
+	"github.com/EliCDavis/bitlib"
+	"github.com/EliCDavis/iter"
+	"github.com/EliCDavis/polyform/modeling"
+	"github.com/EliCDavis/vector/vector3"
+)
+
+// ---- SYM-BYTES / VIEW-1 / ALIGN-1
+
+// must fire: 12 bytes per element appended, counter advanced by 8 per element; offset read after the advance;
+// accessor points one view too far; 2-byte tail leaves the counter misaligned
+func (w *Writer) verifControlBytesBad(data *iter.ArrayIterator[vector3.Float64]) {
+	for i := 0; i < data.Len(); i++ {
+		w.WriteVector3AsFloat32(data.At(i))
+	}
+	size := data.Len() * 8
+	w.bytesWritten += size
+	w.accessors = append(w.accessors, Accessor{
+		BufferView:    ptrI(len(w.bufferViews) + 1),
+		ComponentType: AccessorComponentType_FLOAT,
+		Type:          AccessorType_VEC3,
+		Count:         data.Len(),
+	})
+	w.bufferViews = append(w.bufferViews, BufferView{ByteOffset: w.bytesWritten, ByteLength: size})
+	w.bitW.UInt16(7)
+	w.bytesWritten += 2
 }
 
-func (w *world) reportControls(a *agg) {}
+// must stay silent: hoisted length, view appended first, explicit padding, helper for the tail
+func (w *Writer) verifControlBytesGood(data *iter.ArrayIterator[vector3.Float64], tail []uint16) {
+	n := data.Len()
+	start := w.bytesWritten
+	for i := 0; i < n; i++ {
+		v := data.At(i)
+		w.WriteVector3AsFloat32(v)
+	}
+	w.bufferViews = append(w.bufferViews, BufferView{Buffer: 0, ByteOffset: start, ByteLength: n * 12, Target: ARRAY_BUFFER})
+	w.accessors = append(w.accessors, Accessor{
+		BufferView:    ptrI(len(w.bufferViews) - 1),
+		ComponentType: AccessorComponentType_FLOAT,
+		Type:          AccessorType_VEC3,
+		Count:         n,
+	})
+	w.bytesWritten = start + n*12
+
+	for _, t := range tail {
+		w.bitW.UInt16(t)
+	}
+	tailBytes := 2 * len(tail)
+	w.accessors = append(w.accessors, Accessor{
+		BufferView:    ptrI(len(w.bufferViews)),
+		ComponentType: AccessorComponentType_UNSIGNED_SHORT,
+		Type:          AccessorType_SCALAR,
+		Count:         len(tail),
+	})
+	w.bufferViews = append(w.bufferViews, BufferView{ByteOffset: w.bytesWritten, ByteLength: tailBytes, Target: ELEMENT_ARRAY_BUFFER})
+	w.bytesWritten += tailBytes
+	w.verifControlPad(tailBytes)
+}
+
+func (w *Writer) verifControlPad(n int) {
+	pad := (4 - n%4) % 4
+	for i := 0; i < pad; i++ {
+		w.bitW.Byte(0)
+	}
+	w.bytesWritten += pad
+}
+
+// ---- GLB-1
+
+// must fire: chunk length without padding, total short by 4, BIN padded with spaces
+func (w Writer) verifControlGLBBad(out io.Writer) error {
+	js, err := json.Marshal(w.ToGLTF(BufferEmbeddingStrategy_GLB))
+	if err != nil {
+		return err
+	}
+	jp := (4 - len(js)%4) % 4
+	bin := w.buf.Bytes()
+	bp := (4 - len(bin)%4) % 4
+	bw := bitlib.NewWriter(out, binary.LittleEndian)
+	bw.UInt32(0x46546C67)
+	bw.UInt32(2)
+	bw.UInt32(uint32(12 + 8 + len(js) + jp + 4 + len(bin) + bp))
+	bw.UInt32(uint32(len(js)))
+	bw.UInt32(0x4E4F534A)
+	bw.ByteArray(js)
+	for i := 0; i < jp; i++ {
+		bw.Byte(0x20)
+	}
+	bw.UInt32(uint32(len(bin) + bp))
+	bw.UInt32(0x004E4942)
+	bw.ByteArray(bin)
+	for i := 0; i < bp; i++ {
+		bw.Byte(0x20)
+	}
+	return bw.Error()
+}
+
+// must stay silent: round-up idioms, if/else total, early exit without BIN
+func (w Writer) verifControlGLBGood(out io.Writer) error {
+	js, err := json.Marshal(w.ToGLTF(BufferEmbeddingStrategy_GLB))
+	if err != nil {
+		return err
+	}
+	jl := (len(js) + 3) / 4 * 4
+	bin := w.buf.Bytes()
+	bl := (len(bin) + 3) &^ 3
+	bw := bitlib.NewWriter(out, binary.LittleEndian)
+	bw.UInt32(0x46546C67)
+	bw.UInt32(2)
+	if len(bin) == 0 {
+		bw.UInt32(uint32(20 + jl))
+	} else {
+		bw.UInt32(uint32(28 + jl + bl))
+	}
+	bw.UInt32(uint32(jl))
+	bw.UInt32(0x4E4F534A)
+	bw.ByteArray(js)
+	for i := len(js); i < jl; i++ {
+		bw.Byte(' ')
+	}
+	if len(bin) == 0 {
+		return bw.Error()
+	}
+	bw.UInt32(uint32(bl))
+	bw.UInt32(0x004E4942)
+	bw.ByteArray(bin)
+	for i := 0; i < bl-len(bin); i++ {
+		bw.Byte(0)
+	}
+	return bw.Error()
+}
+
+// ---- WIDTH-1
+
+func (w *Writer) verifControlWidthBad(indices *iter.ArrayIterator[int], vertices int) {
+	if vertices > math.MaxUint16*2 {
+		return
+	}
+	for i := 0; i < indices.Len(); i++ {
+		w.bitW.UInt16(uint16(indices.At(i)))
+	}
+	w.bytesWritten += 2 * indices.Len()
+}
+
+func (w *Writer) verifControlWidthGood(indices *iter.ArrayIterator[int], vertices int) {
+	if vertices <= 1<<16 {
+		for i := 0; i < indices.Len(); i++ {
+			w.bitW.UInt16(uint16(indices.At(i)))
+		}
+		w.bytesWritten += 2 * indices.Len()
+	}
+}
+
+func (w *Writer) verifControlWidthCaller(m modeling.Mesh) {
+	w.verifControlWidthBad(m.Indices(), m.AttributeLength())
+	w.verifControlWidthGood(m.Indices(), m.AttributeLength())
+}
+
+// ---- EXT-1 / EXT-2
+
+func (w *Writer) verifControlExtBad(n *Node, required bool) {
+	n.Extensions = map[string]any{"VERIF_bad": 1}
+	if required {
+		w.extensionsRequired["VERIF_bad"] = true
+	}
+}
+
+func (w *Writer) verifControlExtGood(n *Node, id string, required bool) {
+	if n.Extensions == nil {
+		n.Extensions = make(map[string]any)
+	}
+	n.Extensions[id] = 1
+	if required {
+		w.extensionsRequired[id] = true
+	}
+	w.extensionsUsed[id] = true
+}
+
+// ---- REF-1 / DEDUP-1
+
+func (w *Writer) verifControlRefBad(m *modeling.Mesh) int {
+	key := meshEntry{m, -1}
+	if i, ok := w.meshIndices[key]; ok {
+		return i
+	}
+	idx := len(w.meshes) + 1
+	w.meshIndices[meshEntry{m, 0}] = idx
+	w.meshes = append(w.meshes, Mesh{})
+	return idx
+}
+
+func (w *Writer) verifControlRefGood(m *modeling.Mesh) int {
+	key := meshEntry{m, -1}
+	if i, ok := w.meshIndices[key]; ok {
+		return i
+	}
+	w.meshes = append(w.meshes, Mesh{})
+	idx := len(w.meshes) - 1
+	w.meshIndices[key] = idx
+	return idx
+}
+
+// ---- SINK-1 / BUF-1
+
+func verifControlSinkBad() *Writer {
+	buf := &bytes.Buffer{}
+	return &Writer{buf: buf, bitW: bitlib.NewWriter(&bytes.Buffer{}, binary.LittleEndian)}
+}
+
+func verifControlSinkGood() *Writer {
+	b := new(bytes.Buffer)
+	return &Writer{bitW: bitlib.NewWriter(b, binary.LittleEndian), buf: b}
+}
+
+func (w Writer) verifControlBufBad() Buffer {
+	return Buffer{ByteLength: w.buf.Len() + 1, URI: "data:application/octet-stream;base64," + base64.URLEncoding.EncodeToString(w.buf.Bytes())}
+}
+
+func (w Writer) verifControlBufGood() Buffer {
+	b := Buffer{ByteLength: w.bytesWritten}
+	b.URI = "data:application/gltf-buffer;base64," + base64.StdEncoding.EncodeToString(w.buf.Bytes())
+	return b
+}
+
+// ---- AXIS-3 / MINMAX-1 / SRC-1
+
+func (w *Writer) verifControlDataBad(data *iter.ArrayIterator[vector3.Float64]) {
+	min := vector3.Fill(math.MaxFloat64)
+	max := vector3.Fill(-math.MaxFloat64)
+	for i := 1; i < data.Len(); i++ {
+		v := data.At(i)
+		u := data.At(0)
+		min = vector3.Max(min, u)
+		max = vector3.Max(max, v)
+		w.bitW.Float32(float32(v.X()))
+		w.bitW.Float32(float32(v.Z()))
+		w.bitW.Float32(float32(v.Y()))
+	}
+	w.accessors = append(w.accessors, Accessor{
+		BufferView:    ptrI(len(w.bufferViews)),
+		ComponentType: AccessorComponentType_FLOAT,
+		Type:          AccessorType_VEC3,
+		Count:         data.Len() - 1,
+		Min:           []float64{min.X(), min.Z(), min.Y()},
+		Max:           []float64{max.X(), max.Y(), max.Z()},
+	})
+	w.bufferViews = append(w.bufferViews, BufferView{ByteOffset: w.bytesWritten, ByteLength: (data.Len() - 1) * 12})
+	w.bytesWritten += (data.Len() - 1) * 12
+}
+
+func (w *Writer) verifControlDataGood(data *iter.ArrayIterator[vector3.Float64]) {
+	lo := vector3.Fill(math.MaxFloat64)
+	hi := vector3.Fill(-math.MaxFloat64)
+	n := data.Len()
+	for k := 0; k < n; k++ {
+		p := data.At(k)
+		w.bitW.Float32(float32(p.X()))
+		w.bitW.Float32(float32(p.Y()))
+		w.bitW.Float32(float32(p.Z()))
+		if p.ContainsNaN() {
+			continue
+		}
+		hi = vector3.Max(hi, p)
+		lo = vector3.Min(lo, p)
+	}
+	w.accessors = append(w.accessors, Accessor{
+		BufferView:    ptrI(len(w.bufferViews)),
+		ComponentType: AccessorComponentType_FLOAT,
+		Type:          AccessorType_VEC3,
+		Count:         n,
+		Max:           []float64{hi.X(), hi.Y(), hi.Z()},
+		Min:           []float64{lo.X(), lo.Y(), lo.Z()},
+	})
+	w.bufferViews = append(w.bufferViews, BufferView{ByteOffset: w.bytesWritten, ByteLength: n * 12})
+	w.bytesWritten += n * 12
+}
+`}
+}
+
+type ctlCase struct {
+	rule string
+	fn   string
+	want ob.Verdict
+}
+
+var ctlCases = []ctlCase{
+	{"SYM-BYTES", "verifControlBytesBad", ob.Violation},
+	{"VIEW-1", "verifControlBytesBad", ob.Violation},
+	{"ALIGN-1", "verifControlBytesBad", ob.Violation},
+	{"SYM-BYTES", "verifControlBytesGood", ob.Holds},
+	{"VIEW-1", "verifControlBytesGood", ob.Holds},
+	{"ALIGN-1", "verifControlBytesGood", ob.Holds},
+	{"GLB-1", "verifControlGLBBad", ob.Violation},
+	{"GLB-1", "verifControlGLBGood", ob.Holds},
+	{"WIDTH-1", "verifControlWidthBad", ob.Violation},
+	{"WIDTH-1", "verifControlWidthGood", ob.Holds},
+	{"EXT-1", "verifControlExtBad", ob.Violation},
+	{"EXT-2", "verifControlExtBad", ob.Violation},
+	{"EXT-1", "verifControlExtGood", ob.Holds},
+	{"EXT-2", "verifControlExtGood", ob.Holds},
+	{"DEDUP-1", "verifControlRefBad", ob.Violation},
+	{"REF-1", "verifControlRefBad", ob.Violation},
+	{"DEDUP-1", "verifControlRefGood", ob.Holds},
+	{"REF-1", "verifControlRefGood", ob.Holds},
+	{"SINK-1", "verifControlSinkBad", ob.Violation},
+	{"SINK-1", "verifControlSinkGood", ob.Holds},
+	{"BUF-1", "verifControlBufBad", ob.Violation},
+	{"BUF-1", "verifControlBufGood", ob.Holds},
+	{"AXIS-3", "verifControlDataBad", ob.Violation},
+	{"MINMAX-1", "verifControlDataBad", ob.Violation},
+	{"SRC-1", "verifControlDataBad", ob.Violation},
+	{"AXIS-3", "verifControlDataGood", ob.Holds},
+	{"MINMAX-1", "verifControlDataGood", ob.Holds},
+	{"SRC-1", "verifControlDataGood", ob.Holds},
+	{"SYM-BYTES", "verifControlDataGood", ob.Holds},
+	{"VIEW-1", "verifControlDataGood", ob.Holds},
+}
+
+func (w *world) reportControls(a *agg) {
+	if len(w.c.P.Controls) == 0 {
+		return // -no-controls
+	}
+	if len(w.ctl) == 0 {
+		// the loader dropped the overlay (it no longer type-checks against this tree); a note was recorded
+		return
+	}
+	for _, cc := range ctlCases {
+		got := a.control(cc.rule, cc.fn)
+		if got == "" {
+			got = ob.Verdict("NOT-SEEN")
+		}
+		kind := "control:good"
+		msg := "accepted idioms must stay silent"
+		if cc.want == ob.Violation {
+			kind = "control:bad"
+			msg = "seeded defect must be reported"
+		}
+		w.c.R.Control(cc.rule, kind+":"+cc.fn, controlFile, got, cc.want, msg)
+	}
+}
